@@ -65,20 +65,39 @@ type revObj struct {
 }
 
 type revDoc struct {
-	objs     []*revObj
-	npages   int
-	tag      string
-	resOf    []int // per page: number of its resources object, 0 = written in place
-	fontOf   []int // per page: number of its font object
-	pageOf   []int
-	root     int
-	catalog  int
-	next     int // next unused object number
-	layout   []string
-	shadowed int // superseded versions left inside an object stream that still holds a current object
-	stale    map[int]bool
-	xnow     map[int]string // merged cross-reference table in the wire form of op c03.objstm
-	traps    []int          // numbers whose last entry leads nowhere (bad index, wrong member, no object stream)
+	objs      []*revObj
+	npages    int
+	tag       string
+	resOf     []int // per page: number of its resources object, 0 = written in place
+	fontOf    []int // per page: number of its font object
+	pageOf    []int
+	root      int
+	catalog   int
+	next      int // next unused object number
+	layout    []string
+	shadowed  int // superseded versions left inside an object stream that still holds a current object
+	stale     map[int]bool
+	xnow      map[int]string // merged cross-reference table in the wire form of op c03.objstm
+	traps     []int          // numbers whose last entry leads nowhere (bad index, wrong member, no object stream)
+	streams   []int          // the content streams written (current or not), in the order written
+	contentOf map[int]string // what each of them holds once decoded
+}
+
+// flateSpelling: the ways a Flate-compressed stream can say that its data went through no
+// predictor (ISO 32000-1 §7.4.4.4, Table 8: /Predictor 1 is the default, so is the absence of
+// /DecodeParms, §7.3.8.2 Table 5 allows null and arrays of one filter / one dictionary).
+func flateSpelling(r *hx.Rng) string {
+	return hx.Pick(r, []string{
+		" /Filter /FlateDecode",
+		" /Filter /FlateDecode /DecodeParms << /Predictor 1 >>",
+		" /Filter /FlateDecode /DecodeParms << /Predictor 1 >>",
+		" /Filter /FlateDecode /DecodeParms << /Predictor 1 /Columns 4 >>",
+		" /Filter /FlateDecode /DecodeParms << /Columns 1 /Colors 1 /BitsPerComponent 8 /Predictor 1 >>",
+		" /Filter /FlateDecode /DecodeParms << >>",
+		" /Filter /FlateDecode /DecodeParms null",
+		" /Filter [/FlateDecode] /DecodeParms [<< /Predictor 1 >>]",
+		" /Filter [/FlateDecode]",
+	})
 }
 
 var revEncs = []string{"WinAnsiEncoding", "MacRomanEncoding", "StandardEncoding", "PDFDocEncoding"}
@@ -108,8 +127,19 @@ func (d *revDoc) content(page, rev int) string {
 
 // genRevisions writes the file and returns it with the logical document.
 func genRevisions(r *hx.Rng, tag string) ([]byte, *revDoc) {
-	d := &revDoc{tag: tag, stale: map[int]bool{}, xnow: map[int]string{}}
+	d := &revDoc{tag: tag, stale: map[int]bool{}, xnow: map[int]string{}, contentOf: map[int]string{}}
+	// how each stream is compressed and how it spells out its decode parameters is drawn from a
+	// generator of its own, so that the logical documents stay what they were
+	rx := r.Fork(0x9d1)
 	p := writers.NewPDF(hx.Pick(r, []string{"\n", "\n", "\r\n"}))
+	putContent := func(num int, data string) int64 {
+		d.streams = append(d.streams, num)
+		d.contentOf[num] = data
+		if rx.Chance(1, 2) {
+			return p.Stream(num, "", []byte(data), 0)
+		}
+		return p.Stream(num, flateSpelling(rx), writers.Deflate([]byte(data)), 0)
+	}
 	alloc := func() int { d.next++; return d.next }
 	d.catalog, d.root = alloc(), alloc()
 	d.npages = r.Range(2, 4)
@@ -155,7 +185,7 @@ func genRevisions(r *hx.Rng, tag string) ([]byte, *revDoc) {
 			}
 			e[d.root] = writers.XEntry{Type: 1, F1: p.Obj(d.root, 0, fmt.Sprintf("<< /Type /Pages /Kids [%s] /Count %d >>", strings.Join(kids, " "), d.npages))}
 			for pg := 1; pg <= d.npages; pg++ {
-				e[conts[pg-1]] = writers.XEntry{Type: 1, F1: p.Stream(conts[pg-1], "", []byte(d.content(pg, 0)), 0)}
+				e[conts[pg-1]] = writers.XEntry{Type: 1, F1: putContent(conts[pg-1], d.content(pg, 0))}
 			}
 			write = append(write, d.objs...)
 		} else {
@@ -186,7 +216,7 @@ func genRevisions(r *hx.Rng, tag string) ([]byte, *revDoc) {
 				o.ver += r.Range(1, 3) // never the version it had: a different integer, a different encoding
 				if o.kind == "page" && r.Chance(1, 2) {
 					o.cont = alloc()
-					e[o.cont] = writers.XEntry{Type: 1, F1: p.Stream(o.cont, "", []byte(d.content(o.page, rev)), 0)}
+					e[o.cont] = writers.XEntry{Type: 1, F1: putContent(o.cont, d.content(o.page, rev))}
 				}
 			}
 			// an integer nothing refers to may be deleted
@@ -254,7 +284,18 @@ func genRevisions(r *hx.Rng, tag string) ([]byte, *revDoc) {
 				members[s] = append(members[s], o.num)
 				md = append(md, fmt.Sprintf("%d:%s/V%d", o.num, o.kind, o.ver))
 			}
-			e[s] = writers.XEntry{Type: 1, F1: p.ObjStm(s, mem, r.Bool(), 0)}
+			flate := r.Bool()
+			spelling := flateSpelling(rx)
+			e[s] = writers.XEntry{Type: 1, F1: p.ObjStmRaw(s, mem, flate, 0, func(raw *writers.RawObjStm) {
+				if flate && spelling != " /Filter /FlateDecode" {
+					raw.DictRewrite = func(dict string) string {
+						return strings.Replace(dict, " /Filter /FlateDecode", spelling, 1)
+					}
+				}
+			})}
+			if flate {
+				md = append(md, "<<"+strings.TrimSpace(spelling)+">>")
+			}
 			d.xnow[s] = fmt.Sprintf("m1/%s/%s", strings.Join(hn, "."), strings.Join(hv, "."))
 			stmLen[s] = len(ms)
 			stmList = append(stmList, s)
@@ -368,15 +409,58 @@ func runRevisions(c *hx.Ctx, idx int) {
 		acc = append(acc, fmt.Sprintf("g%d", o))
 		seq = append(seq, o)
 	}
-	k.Steps = "GetObject: " + strings.Join(acc, ",")
+	// what else the process does between the look-ups (drawn apart, the look-ups stay what they
+	// were): x<n> = the content stream n of this document is fetched through the same reader and
+	// decoded (core.Stream.Decode), t = the whole document is extracted through a reader of its
+	// own. Neither is a look-up of the history, so the model sees the look-ups only; the answers of
+	// the look-ups must not notice them.
+	rh := r.Fork(0x1e7)
+	between := make([][]string, len(seq)) // before look-up i
+	var hist []string
+	for i := range seq {
+		if i > 0 {
+			for n := rh.Intn(3); n > 0; n-- {
+				if rh.Chance(1, 4) {
+					between[i] = append(between[i], "t")
+				} else {
+					between[i] = append(between[i], fmt.Sprintf("x%d", hx.Pick(rh, d.streams)))
+				}
+			}
+		}
+		hist = append(hist, between[i]...)
+		hist = append(hist, acc[i])
+	}
+	k.Steps = "GetObject: " + strings.Join(hist, ",")
 	var got, fresh []string
+	type decoded struct {
+		num  int
+		at   int
+		data string
+	}
+	var decs []decoded
 	lookedUp := c.Guard("C03/revisions", k, 30, func() {
 		rd, err := reader.Open(path)
 		if err != nil {
 			return
 		}
 		defer rd.Close()
-		for _, o := range seq {
+		for i, o := range seq {
+			for _, b := range between[i] {
+				if b == "t" {
+					tabula.Open(path).Text()
+					continue
+				}
+				n, _ := strconv.Atoi(b[1:])
+				if obj, err := rd.GetObject(n); err == nil {
+					if st, ok := obj.(*core.Stream); ok {
+						if data, err := st.Decode(); err == nil {
+							decs = append(decs, decoded{n, i, string(data)})
+							continue
+						}
+					}
+				}
+				decs = append(decs, decoded{n, i, "<no stream / not decodable>"})
+			}
 			if o < 0 {
 				rd.ClearCache()
 				got = append(got, "-")
@@ -394,8 +478,14 @@ func runRevisions(c *hx.Ctx, idx int) {
 		}
 	})
 	if lookedUp && got != nil {
+		for _, x := range decs {
+			x := x
+			c.Check("C03/revised-stream-decode-depends-on-history", x.data == d.contentOf[x.num], k, func() string {
+				return fmt.Sprintf("file %s; history %s on one reader: the content stream %d decoded before look-up %d is %q; the harness wrote %q", k.File, strings.Join(hist, ","), x.num, x.at+1, truncate(x.data, 120), truncate(d.contentOf[x.num], 120))
+			})
+		}
 		c.Check("C03/revised-lookup-depends-on-reader-history", strings.Join(got, ",") == strings.Join(fresh, ","), k, func() string {
-			return fmt.Sprintf("file %s; current versions %s; accesses %s on one reader gave the versions %v; each look-up on a reader of its own gives %v", k.File, strings.Join(spec, ","), strings.Join(acc, ","), got, fresh)
+			return fmt.Sprintf("file %s; current versions %s; accesses %s on one reader gave the versions %v; each look-up on a reader of its own gives %v", k.File, strings.Join(spec, ","), strings.Join(hist, ","), got, fresh)
 		})
 		want := make([]string, len(seq))
 		for i, o := range seq {
@@ -405,7 +495,7 @@ func runRevisions(c *hx.Ctx, idx int) {
 			}
 		}
 		c.Check("C03/revised-lookup-not-the-current-object", strings.Join(got, ",") == strings.Join(want, ","), k, func() string {
-			return fmt.Sprintf("file %s; accesses %s on one reader gave the versions %v; the document (last revision of every object; - = freed or never written) has %v", k.File, strings.Join(acc, ","), got, want)
+			return fmt.Sprintf("file %s; accesses %s on one reader gave the versions %v; the document (last revision of every object; - = freed or never written) has %v", k.File, strings.Join(hist, ","), got, want)
 		})
 		c.Op("c03.cache "+joinOrDash(spec, ",")+" "+strings.Join(acc, ","), strings.Join(got, ","))
 		// the three-level model (objCache, objStmCache, ObjectStream) on the physical layout: the
